@@ -9,5 +9,6 @@ from harness import core
 core.regen_root()
 PY
 cd lean
-lake build OV ovdriver 2>&1 | tail -5
-test -x .lake/build/bin/ovdriver
+DRV=$(ls OV/Drivers/C*.lean 2>/dev/null | sed -E 's#.*/C([0-9]+)\.lean#drv_c\1#')
+lake build OV $DRV 2>&1 | tail -5
+for d in $DRV; do test -x .lake/build/bin/$d; done
